@@ -46,7 +46,7 @@ ASSUMPTIONS = [
 BUDGET = {"quick": 900, "thorough": 3600}
 
 
-def states(tier, seed):
+def _states_base(tier, seed):
     out = []
     for name in OUTPUTS:
         if tier == "quick":
@@ -191,6 +191,25 @@ def _compare(orig, new):
             if _norm(dict(pa)) != _norm(dict(pb)):
                 diffs.append(f"predictions differ at xiR={xiR}, xiF={xiF}")
     return diffs
+
+
+def states(tier, seed):
+    """quick = the full base lattice; thorough = base lattice + the deep extension."""
+    base = _states_base("thorough", seed)
+    if tier == "quick":
+        return base
+    seen = {digest(s) for s in base}
+    return base + [s for s in _states_deep(seed) if digest(s) not in seen]
+
+
+def _states_deep(seed):
+    out = []
+    for name in OUTPUTS:
+        for w in itertools.product(OPS[:2], repeat=5):
+            out.append({"output": name, "word": list(w)})
+        for w in itertools.product(OPS, repeat=4):
+            out.append({"output": name, "word": list(w)})
+    return out
 
 
 def execute(st):
